@@ -122,6 +122,25 @@ def run(ctx):
         d2 = vlib.tlc_must_pass(ctx, "MCHeader", "MCHeader_ext_tree.cfg", workers=8, timeout=3000)
         vlib.log("TLC trees: %d distinct / %d generated, %.0fs" % (d2.distinct, d2.generated, d2.wall))
         states, trans = states + d2.distinct, trans + d2.generated
+    # 1b. the order function as a case table over every expansion number (spec/OrderCases.tla), realised on real sealed headers
+    oc = vlib.tlc_must_pass(ctx, "OrderCases", "MCOrderCases.cfg", workers=2, timeout=900)
+    cases = sorted(set(oc.printed))
+    if len(cases) < 100:
+        raise Broken("OrderCases emitted only %d cases" % len(cases))
+    cf = ctx.work / "ordercases.ndjson"
+    cf.write_text("\n".join(cases) + "\n")
+    ores = ctx.work / "ordercases-res.json"
+    p = vlib.run([drv, "ordercases", "-in", cf, "-out", ores, "-seed", ctx.seed, "-zt", "6,9" if quick else "6,9,11", "-reps", 2 if quick else 6], timeout=3000)
+    if p.returncode != 0:
+        raise Broken("hdrdrv ordercases failed (%d): %s\n%s" % (p.returncode, p.stdout[-800:], p.stderr[-1500:]))
+    oj = json.loads(ores.read_text())
+    if oj["stats"].get("realised", 0) < 150 or any(oj["stats"].get("realised-e%d" % e, 0) < 10 for e in range(1, 5)):
+        raise Broken("order cases realised too thinly: %s" % json.dumps(oj["stats"]))
+    for m in oj["mismatches"] or []:
+        c = m["case"]
+        vlib.report(ctx, {"kind": "order-case", "what": "e%d-%s-sumR%d-sumP%d" % (c["e"], c["window"], c["sumR"], c["sumP"])},
+                    {"layer": "ordercases", "case": c, "node_answer": m["got"], "specified_order": m["want"], "zt": m["zt"], "detail": m["detail"]})
+    cov.update(order_cases=len(cases), order_cases_realised=oj["stats"].get("realised", 0), order_case_samples=oj.get("samples") or [])
     # 2. spec -> code: behaviours (tree shapes with orders, time classes, CalcOrder calls, restarts) on fresh networks
     e = vlib.tlc_must_pass(ctx, "MCHeader", "MCHeader_ext_emit.cfg", workers=8, timeout=3000)
     vlib.log("TLC emit: %d behaviours, %d distinct states, %.0fs" % (len(e.printed), e.distinct, e.wall))
